@@ -857,3 +857,127 @@ for _kind, (_strategy, _fn) in _BITS.items():
     for _i in range(4):
         # (Hypothesis starts every run with the simplest example, so 2 instances = the minimal object + one drawn object)
         P.sub("bits_%s_%d" % (_kind, _i), _strategy, quick=2, thorough=40)(_fn)
+
+
+# ---------------------------------------------------------------------------------------------------
+# The relying party's revocation check x509_cert_check_crl (src/x509_new.c): download the CRL named by the certificate's
+# CRLDistributionPoints URI, check it, verify it under the CA certificate, look the serial up.  The CRL comes from a loopback HTTP server
+# inside the worker (no network involved).  "Not revoked" (1) may be reported only for a CRL that is genuine in every respect and does not
+# list the serial; a listed serial, a CRL under another key, with a changed bit, verified under another signer ID, or from another issuer
+# is never "not revoked".
+import socket as _socket, threading as _threading
+
+_CRL_SRV = {}
+
+
+def _crl_server():
+    """one loopback HTTP/1.1 server thread per worker process: GET /<name> answers with the bytes registered under that name"""
+    if "port" not in _CRL_SRV:
+        ls = _socket.socket(_socket.AF_INET, _socket.SOCK_STREAM)
+        ls.bind(("127.0.0.1", 0)); ls.listen(16)
+        _CRL_SRV["port"], _CRL_SRV["docs"] = ls.getsockname()[1], {}
+
+        def serve():
+            while True:
+                try:
+                    c, _ = ls.accept()
+                except OSError:
+                    return
+                try:
+                    c.settimeout(10.0)
+                    req = b""
+                    while b"\r\n\r\n" not in req and len(req) < 4096:
+                        part = c.recv(1024)
+                        if not part:
+                            break
+                        req += part
+                    path = req.split(b" ")[1].decode("ascii", "replace").lstrip("/") if req.count(b" ") >= 2 else ""
+                    body = _CRL_SRV["docs"].get(path)
+                    if body is None:
+                        c.sendall(b"HTTP/1.1 404 Not Found\r\nContent-Length: 0\r\n\r\n")
+                    else:
+                        c.sendall(b"HTTP/1.1 200 OK\r\nContent-Type: application/pkix-crl\r\nContent-Length: %d\r\n\r\n" % len(body) + body)
+                except OSError:
+                    pass
+                finally:
+                    c.close()
+        t = _threading.Thread(target=serve, daemon=True)
+        t.start()
+    return _CRL_SRV
+
+
+CRL_DEFECTS = ["none", "none", "none", "other-key", "sig-flip", "tbs-flip", "wrong-id", "other-issuer"]
+chk_case = st.fixed_dictionaries({"seed": st.integers(0, 1 << 30), "slen": st.integers(1, 12), "listed": st.booleans(), "others": st.integers(0, 6),
+                                  "near": st.booleans(), "defect": st.sampled_from(CRL_DEFECTS), "bit": st.integers(0, 1 << 16)})
+
+
+@P.sub("check_crl", chk_case, quick=400, thorough=12000, chunk=40)
+def check_crl(case, ctx):
+    """x509_cert_check_crl against a loopback CRL server: 'not revoked' only for a genuine CRL that does not list the serial"""
+    import hashlib
+    from vlib.ffi import shim
+    from vlib.ref import x509 as XR
+    from vlib import pki
+    l = L(ctx)
+    shim().freeze_time(pki.T0)
+    srv = _crl_server()
+    seed = case["seed"]
+    ca = pki.Chain("c15crl-%d" % (seed % 4), n_inter=0)
+    ca_d, ca_pub = ca.keys["root"]
+    ca_cert = ca.certs["root"]
+    rnd = lambda tag, n: hashlib.shake_128(b"c15crl/%d/%s" % (seed, tag.encode())).digest(n)
+    serial = bytes([rnd("serial", 1)[0] & 0x7F | 1]) + rnd("serial-rest", case["slen"] - 1)
+    docname = "crl-%d-%d.crl" % (seed, case["bit"])
+    uri = "http://127.0.0.1:%d/%s" % (srv["port"], docname)
+    issuer_name = XR.name("c15crl-%d root" % (seed % 4))
+    leaf_d = int.from_bytes(rnd("leaf", 32), "big") % (M.N - 2) + 1
+    cdp = XR.D.enc_seq(XR.D.enc_seq(XR.D.enc_tlv(0xA0, XR.D.enc_tlv(0xA0, XR.D.enc_tlv(0x86, uri.encode())))))
+    exts = [XR.ext_key_usage(["digitalSignature"]), XR.D.enc_seq(XR.D.enc_oid(bytes.fromhex("551D1F")), XR.D.enc_octets(cdp))]
+    tbs = XR.tbs(int.from_bytes(serial, "big"), issuer_name, pki.T0 - 86400, pki.T0 + 86400 * 300, XR.name("c15crl leaf %d" % seed), M.pub_of(leaf_d), exts)
+    cert = XR.cert(tbs, ca_d, ca_pub)
+    # the CRL, issued through the library
+    date = pki.T0 - 3600
+    entries = []
+    if case["listed"]:
+        entries.append(serial)
+    for i in range(case["others"]):
+        o = bytes([rnd("o%d" % i, 1)[0] & 0x7F | 1]) + rnd("orest%d" % i, case["slen"] - 1)
+        if case["near"] and i == 0:
+            o = serial[:-1] + bytes([serial[-1] ^ 1]) if len(serial) > 1 else bytes([(serial[0] ^ 2) & 0x7F | 1])
+        if o != serial and o not in entries:
+            entries.append(o)
+    entries.sort(key=lambda x: rnd("order" + x.hex(), 4))
+    revoked = b"".join(X.lib_revoked(l, {"serial": e.hex(), "date": date, "reason": -1, "invdate": -1, "issuer": None, "via": "plain"}) for e in entries)
+    defect = case["defect"]
+    sign_d = ca_d if defect != "other-key" else (ca_d % (M.N - 3)) + 1
+    crl_issuer = issuer_name if defect != "other-issuer" else XR.name("c15crl-%d other" % (seed % 4))
+    # the library hands names around without the outer SEQUENCE header
+    inner = D.parse(crl_issuer).content
+    try:
+        crl = X.issue_crl(l, 1, inner, pki.T0 - 7200, pki.T0 + 86400 * 7, revoked, b"", sign_d, M.DEFAULT_ID, seed + 1)
+    except X.Refused as e:
+        ctx.fail("CRL not issued: %s" % e, e.key)
+        return
+    if defect in ("sig-flip", "tbs-flip"):
+        o = X.parse_signed(crl)
+        b = bytearray(crl)
+        if defect == "sig-flip":
+            off = len(crl) - 1 - (case["bit"] >> 3) % 60
+        else:
+            start = crl.index(o.tbs.raw)
+            off = start + 4 + (case["bit"] >> 3) % (len(o.tbs.raw) - 4)
+        b[off] ^= 1 << (case["bit"] & 7)
+        crl = bytes(b)
+    srv["docs"][docname] = crl
+    sid = M.DEFAULT_ID if defect != "wrong-id" else b"1234567812345679"
+    try:
+        r = l.x509_cert_check_crl(Buf.of(cert), len(cert), Buf.of(ca_cert), len(ca_cert), Buf.of(sid), len(sid))
+    finally:
+        srv["docs"].pop(docname, None)
+    good = defect == "none" and not case["listed"]
+    ctx.case(nontrivial=True, classes=["defect:" + defect, "listed" if case["listed"] else "not-listed", "entries=%d" % len(entries), "ret=%d" % r], ident=case, sample=case)
+    what = "certificate serial %s, CRL with %d entries (%s), defect %s" % (serial.hex(), len(entries), "lists the serial" if case["listed"] else "does not list it", defect)
+    if good:
+        ctx.check(r == 1, "x509_cert_check_crl returns %d for a genuine CRL that does not list the serial: %s" % (r, what), "check_crl/good-crl-refused")
+    else:
+        ctx.check(r != 1, "x509_cert_check_crl reports 'not revoked' (1): %s" % what, "check_crl/not-revoked-reported/" + ("listed" if defect == "none" else defect))
